@@ -223,11 +223,10 @@ func (w *World) holds(fn *ssa.Function, v ssa.Value, pol bool, m Matcher, en *en
 		if depth <= 0 {
 			return false
 		}
-		callees := w.CalleesOf(x)
-		if len(callees) != 1 {
+		g := w.PreferredCallee(x)
+		if g == nil {
 			return false
 		}
-		g := callees[0]
 		if g.Signature.Results().Len() != 1 {
 			return false
 		}
@@ -272,11 +271,10 @@ func (w *World) holds(fn *ssa.Function, v ssa.Value, pol bool, m Matcher, en *en
 			if call == nil {
 				return false
 			}
-			callees := w.CalleesOf(call)
-			if len(callees) != 1 {
+			g := w.PreferredCallee(call)
+			if g == nil {
 				return false
 			}
-			g := callees[0]
 			busy[k] = true
 			defer delete(busy, k)
 			sub := w.callEnv(g, call, en)
